@@ -160,6 +160,10 @@ func zzFaultedTransaction(nst int) {
 	panicAt := zzverif.Choice("panic position", n+2)
 	cancelAt := zzverif.Choice("cancel position", n+2)
 	retErr := zzverif.Bool("callback returns its own error")
+	// which error: its own, or a context error that comes from some other,
+	// unrelated context (a per-call timeout inside the callback) while the
+	// transaction's own context is alive
+	errKind := zzverif.Choice("callback error kind", 3)
 	var ignore [zzMaxStmts]bool
 	for k := 0; k < n; k++ {
 		ignore[k] = zzverif.Bool("callback ignores statement error")
@@ -199,6 +203,12 @@ func zzFaultedTransaction(nst int) {
 				}
 			}
 			if retErr {
+				switch errKind {
+				case 1:
+					return context.Canceled
+				case 2:
+					return context.DeadlineExceeded
+				}
 				return zzErrCallback
 			}
 			cbNil = true
@@ -299,6 +309,11 @@ func zzBulk(maxRows int) {
 		err = (&MySQLDB{config: &Config{}, db: db}).BulkInsert(ctx, "t", columns, values)
 	}
 	zzverif.Yield()
+	if st.stmts > 0 && rows <= 3 {
+		// the statement is the plain multi-row INSERT (no conflict clause that changes what a failure leaves behind)
+		pre := "INSERT INTO "
+		zzverif.Assert(len(st.lastQuery) > len(pre) && st.lastQuery[:len(pre)] == pre, "c14-bulk-insert-statement-is-not-a-plain-insert")
+	}
 	zzverif.Assert(len(st.committed) == 0 || zzSameInts(st.committed, want), "c14-bulk-insert-partial-rows")
 	if err == nil {
 		zzverif.Assert(zzSameInts(st.committed, want), "c14-bulk-insert-success-but-rows-missing")
